@@ -99,8 +99,9 @@ class NetworkXGraphStorageDisjoint:
             # check this graph_id isn't already present
             self.lock.acquire()
             try:
-                if graph_id in self.graphs.keys():
-                    # graph already present, warn and exit
+                if graph_id in self.graphs.keys() and len(self.graphs[graph_id].nodes) > 0:
+                    # graph already present, warn and exit; an entry left empty by del_graph (or created by a
+                    # read of the defaultdict) does not count as present
                     if self.log is not None:
                         self.log.warn('Attempting to insert a graph with the same GraphID, skipping')
                     self.lock.release()
